@@ -29,7 +29,9 @@ Plus   == 43
 Space  == 32
 Under  == 95
 
-Range(f) == {f[i] : i \in DOMAIN f}
+\* flag test: b is a power of two
+Bit(f, b) == (f \div b) % 2 = 1
+
 
 AllDigits(t) == \A i \in 1..Len(t) : IsDigit(t[i])
 
